@@ -766,3 +766,4 @@ def replay(rec):
 
 
 MANIFEST = {'category': 'exploration', 'technique': 'bounded exhaustive enumeration of unit containers / dimension matrices against an exponent-vector reference model (small-scope model checking of the operator algebra)', 'text': 'Every container over a 3-name alphabet with exponents in a small range, every ordered pair (* /, ==, hash), every triple of the sub-alphabet (associativity), every (u,a,b) power-law instance, at the UnitsContainer, ParserHelper, Unit, Quantity-unit and dimensionality layers and for int/float/Fraction/Decimal exponents, plus every integer dimension matrix within the stated shapes (entries -1..2 up to 3x3 / 4x2, and all 3x2 matrices with entries -3..3, whose null vectors mix co-prime denominators) for both pi_theorem entry points, is executed on the real code and compared with dict-of-Fraction arithmetic. The laws are algebraic identities over finitely many branch shapes, so a wrong branch shows at the smallest instance; the enumeration is complete within the bound.', 'note': 'Trusted: the 40-line exponent-vector model and Fraction rank computation in checks/c04_group.py; float exponents are dyadic so arithmetic is exact. Not covered: containers with more than 3 names, exponents outside the alphabet, matrices larger than 4x3.', 'ref': 'DESIGN.md §4 C04'}
+MANIFEST["text"] += ' Rational powers: default containers with integer exponents raised to 1/10, 3/10, 1/3, 7/10, -1/10 keep the exact power laws.'
